@@ -40,6 +40,7 @@ structure PendingOp where
   appliedAt : Nat := 0
   inStopAtCall : Bool := false   -- issued while a StopWithContext{DeleteKey} of the instance was in progress
   ledAtStop : Bool := false      -- … and that call had found the instance leading
+  site : String := ""             -- the library function that issued the operation
   deriving Repr, DecidableEq, Inhabited
 
 structure ApiCall where
